@@ -253,10 +253,25 @@ func (ef *errflow) infallibleCall(c ssa.CallInstruction) bool {
 func (ef *errflow) allowed(fn *ssa.Function, sentinel string) bool {
 	k := FuncKey(fn)
 	// closures inherit the classification of their outermost function
+	var outer *ssa.Function
 	for f := fn; f != nil; f = f.Parent() {
 		k = FuncKey(f)
+		outer = f
 		if classification[k][sentinel] || ef.extraClass[k][sentinel] {
 			return true
+		}
+	}
+	// a helper that was extracted from a reviewed function since the reference tree classifies like the function it
+	// was taken out of (the functions that call it)
+	if isFresh(outer) {
+		for _, cs := range ef.p.CallSitesOf(outer) {
+			c := cs.Fn
+			for c.Parent() != nil {
+				c = c.Parent()
+			}
+			if c != outer && !isFresh(c) && (classification[FuncKey(c)][sentinel] || ef.extraClass[FuncKey(c)][sentinel]) {
+				return true
+			}
 		}
 	}
 	return false
